@@ -166,7 +166,7 @@ def extract_group(out, path):
     return len(seen)
 
 
-def tlc_generate(name, module, cfg, seed, simulate=None, timeout=900, workers=1):
+def tlc_generate(name, module, cfg, seed, simulate=None, timeout=3000, workers=1):
     """Behaviour generation: TLC prints one BEHAVIOUR line per behaviour (exhaustive BFS over a
     scripted configuration, or -simulate num,depth for random interleavings)."""
     meta = _tlc_base(name)
